@@ -7,7 +7,7 @@
    The format strings, separators and the sort key of the alternatives come from Gen/RegexHoles.v
    (regenerated from the source on every run).  Model file: definitions only. *)
 From Coq Require Import List Bool Arith String Ascii ZArith NArith.
-From LV Require Import Re.Syntax Re.Width Gen.RegexHoles.
+From LV Require Import Re.Syntax Re.Lang Re.Width Gen.RegexHoles.
 Import ListNotations.
 
 (* operator of an `expr` node: OP token ? * +, or ~ n, or ~ n..m  (`maybe` = [x] is expr with ?) *)
@@ -142,3 +142,32 @@ Definition top_ok (op : top) (k : nat) : Prop :=
   | OpOpt => k <= 1 | OpStar => True | OpPlus => 1 <= k
   | OpExact n => k = n | OpRange n m => n <= k <= m
   end.
+
+(* concatenation of one word from each language of the list *)
+Fixpoint lcat (Ls : list (list nat -> Prop)) (w : list nat) : Prop :=
+  match Ls with
+  | [] => w = []
+  | L :: Ls' => exists u v, w = u ++ v /\ L u /\ lcat Ls' v
+  end.
+
+
+(* the documented meaning of a terminal definition *)
+Fixpoint tden (t : ttree) (w : list nat) : Prop :=
+  match t with
+  | TStr s => w = codes s
+  | TRange a b => exists c, w = [c] /\ nat_of_ascii a <= c <= nat_of_ascii b
+  | TCls neg rs => exists c, w = [c] /\ cls_mem neg (map arange rs) c = true
+  | TDot => exists c, w = [c] /\ c <> NEWLINE
+  | TSeq l => lcat (map tden l) w
+  | TAlt l => (fix any (l : list ttree) : Prop := match l with [] => False | x :: l' => tden x w \/ any l' end) l
+  | TOp t' op => exists k, top_ok op k /\ rpow (tden t') k w
+  end.
+
+Fixpoint tt_ok (t : ttree) : bool :=
+  match t with
+  | TSeq l => forallb tt_ok l
+  | TAlt l => negb (match l with [] => true | _ => false end) && forallb tt_ok l
+  | TOp t' op => op_ok op && tt_ok t'
+  | _ => true
+  end.
+
